@@ -10,7 +10,7 @@ inductive Outcome (α : Type) where
   | ok (a : α)
   | err
   | panic (site : String)
-deriving Repr, Inhabited
+deriving Repr, Inhabited, DecidableEq
 
 def Outcome.bind {α β} (o : Outcome α) (f : α → Outcome β) : Outcome β :=
   match o with
